@@ -24,6 +24,7 @@
 #include <memory>
 #include <sstream>
 #include <string>
+#include <mutex>
 #include <unordered_map>
 #include <vector>
 
@@ -230,6 +231,10 @@ struct AllocStats {
   std::atomic<long> calls{0};
 };
 static AllocStats g_alloc;
+// which allocator instance (id) issued each live block: unequal instances stand for different arenas, so a block
+// must be returned through an allocator equal to the one it came from
+static std::mutex g_owner_mu;
+static std::unordered_map<const void *, int> g_block_owner;
 template <class T> struct TrackAlloc {
   using value_type = T;
   using propagate_on_container_copy_assignment = std::true_type;
@@ -244,9 +249,21 @@ template <class T> struct TrackAlloc {
     ++g_alloc.calls;
     ++g_alloc.live_blocks;
     g_alloc.live_bytes += (long)(n * sizeof(T));
-    return std::allocator<T>().allocate(n);
+    T *p = std::allocator<T>().allocate(n);
+    { std::lock_guard<std::mutex> g(g_owner_mu); g_block_owner[p] = id; }
+    return p;
   }
   void deallocate(T *p, size_t n) {
+    {
+      std::lock_guard<std::mutex> g(g_owner_mu);
+      auto it = g_block_owner.find(p);
+      if (it == g_block_owner.end()) g_errors.push_back("deallocate of a block this allocator family never issued");
+      else {
+        if (it->second != id)
+          g_errors.push_back("block issued by allocator " + std::to_string(it->second) + " returned through unequal allocator " + std::to_string(id));
+        g_block_owner.erase(it);
+      }
+    }
     --g_alloc.live_blocks;
     g_alloc.live_bytes -= (long)(n * sizeof(T));
     std::allocator<T>().deallocate(p, n);
@@ -966,7 +983,21 @@ static void enumerate_faults(int lineno, const std::string &ln, int a, const std
   bool has_key = tk.size() > 2 && (o == "find" || o == "findthrow" || o == "contains" || o == "findfn" || o == "update" || o == "updatefn" ||
                                    o == "insert" || o == "ioa" || o == "upsert" || o == "uprase" || o == "erase" || o == "erasefn" ||
                                    o == "l.insert" || o == "l.erase" || o == "l.find" || o == "l.at" || o == "l.count" || o == "l.idx");
-  if (has_key && U(tk[2]) == kPoison) {
+  // kinds 2/3 model a hash / equality functor that throws as a deterministic predicate of its arguments (the
+  // poison key): such a functor could never have stored that key, so these faults are only injected while no
+  // table holds it (bucket arrays scanned directly: no lock, no migration side effect)
+  bool poison_stored = false;
+  for (int i = 0; i < NT && !poison_stored; ++i) {
+    if (!g_tab[i] || IA::all_locks(*g_tab[i]).empty()) continue;
+    for (int w = 0; w < 2 && !poison_stored; ++w) {
+      auto &bc = w ? IA::old_buckets(*g_tab[i]) : IA::buckets(*g_tab[i]);
+      if (w && IA::nrem(*g_tab[i]) == 0) continue;
+      for (size_t b = 0; b < bc.size() && !poison_stored; ++b)
+        for (size_t sl = 0; sl < H_SPB; ++sl)
+          if (bc[b].occupied(sl) && bc[b].key(sl).id == kPoison) { poison_stored = true; break; }
+    }
+  }
+  if (has_key && U(tk[2]) == kPoison && !poison_stored) {
     report(run_child(a, tk, 2, 0));
     report(run_child(a, tk, 3, 0));
   }
